@@ -113,36 +113,123 @@ def guard_dnf(guards):
     return out
 
 
-def block_dnf(ev, res, body, bb, lit=None, cap=48, _memo=None, _back=None, stop=frozenset()):
+def variant_join_sites(res, body):
+    """join blocks of the frame at which a value was joined from variant constructions and whose discriminant is tested later: {join block: vsum term}"""
+    out = {}
+    for c in res.conds.values():
+        if tag(c) == "discr" and tag(c[1]) == "vsum" and len(c[1]) > 3 and c[1][3][0] == "from":
+            site = c[1][3][1]
+            if len(site) == 1 and str(site[-1]).startswith(body.name + "@"):
+                try:
+                    out[int(str(site[-1]).split("@")[-1])] = c[1]
+                except ValueError:
+                    pass
+    return out
+
+
+def _rel_sat(rel, v):
+    if rel[0] == "eq":
+        return v == rel[1]
+    if rel[0] == "ne":
+        return v not in tuple(rel[1])
+    if rel[0] == "in":
+        return v in tuple(rel[1])
+    return True
+
+
+def guard_dnf_pairs(guards):
+    """like guard_dnf, but the disjuncts are lists of (cond, rel) guard pairs (for callers that extract literals themselves)"""
+    out = [[]]
+    for cond, rel in guards:
+        t = tag(cond)
+        truth = True if rel in (("eq", 1), ("ne", (0,))) else (False if rel in (("eq", 0), ("ne", (1,))) else None)
+        if t == "not" and truth is not None:
+            alts = guard_dnf_pairs([(cond[1], ("eq", 0 if truth else 1))])
+        elif t == "booland" and truth is False:
+            alts = guard_dnf_pairs([(cond[1], ("eq", 0))]) + guard_dnf_pairs([(cond[1], ("eq", 1)), (cond[2], ("eq", 0))])
+        elif t == "boolor" and truth is True:
+            alts = guard_dnf_pairs([(cond[1], ("eq", 1))]) + guard_dnf_pairs([(cond[1], ("eq", 0)), (cond[2], ("eq", 1))])
+        elif t == "booland" and truth is True:
+            alts = guard_dnf_pairs([(cond[1], ("eq", 1)), (cond[2], ("eq", 1))])
+        elif t == "boolor" and truth is False:
+            alts = guard_dnf_pairs([(cond[1], ("eq", 0)), (cond[2], ("eq", 0))])
+        else:
+            alts = [[(cond, rel)]]
+        out = [a + b for a in out for b in alts]
+        if len(out) > 64:
+            return out[:64]
+    return out
+
+
+def block_dnf(ev, res, body, bb, lit=None, cap=48, _memo=None, _back=None, stop=frozenset(), _vj=None, edge_lits=None, forced=(), shared_memo=None):
     """exact condition under which control reaches block `bb` of the evaluated top frame, over forward edges (loops are cut at their back edges): DNF of the
     literals implied by the edge guards; `lit` canonicalises a fact (may return None to drop it); paths through a block of `stop` are left out.  None when it
-    grows beyond `cap` disjuncts."""
-    memo = _memo if _memo is not None else {}
+    grows beyond `cap` disjuncts.  `edge_lits(guards) -> (set of literals, infeasible)` replaces the default literal extraction (C11 projects the sync flavour onto
+    one thread there); `forced` = ((join block, pred), ..) restricts the paths to those that enter each listed join over the given edge.  A test of the discriminant of a value that was joined from variant constructions (`let r = if c { A } else { B }; match r`)
+    selects the paths that came into the join over the edges that built that variant: disjuncts carry a ('via', join, pred) marker for such joins while the
+    DNF is built; the markers are removed from the result."""
+    top = _memo is None
+    memo = _memo if _memo is not None else (shared_memo if shared_memo is not None else {})   # shared_memo: kept by the caller across top-level calls
     back = _back if _back is not None else set(body.back_edges())
-    if bb in memo:
-        return memo[bb]
-    memo[bb] = None
-    if bb == 0:
-        memo[bb] = [frozenset()]
-        return memo[bb]
-    preds = [p for p in body.pred[bb] if (p, bb) not in back and p in body.reachable and not body.blocks[p]["cleanup"] and p not in stop]
-    out = []
-    for p in preds:
-        pd = block_dnf(ev, res, body, p, lit, cap, memo, back, stop)
-        if pd is None:
-            return None
-        gp = ev.guards(res, p)
-        edge = [g for g in ev.guards_edge(res, p, bb) if g not in gp]
-        for conj in guard_dnf(edge):
-            ls = set()
-            for f in conj:
-                f2 = lit(f) if lit is not None else f
-                if f2 is not None:
-                    ls.add(f2)
-            out.extend(c | frozenset(ls) for c in pd)
-    out = dnf_simplify(out)
-    memo[bb] = out if len(out) <= cap else None
-    return memo[bb]
+    vj = _vj if _vj is not None else variant_join_sites(res, body)
+    mk = (bb, forced)
+    if mk in memo:
+        r = memo[mk]
+    else:
+        memo[mk] = None
+        if bb == 0:
+            memo[mk] = [frozenset()]
+        else:
+            preds = [p for p in body.pred[bb] if (p, bb) not in back and p in body.reachable and not body.blocks[p]["cleanup"] and p not in stop]
+            fd = dict(forced)
+            if bb in fd:
+                preds = [p for p in preds if p == fd[bb]]
+            out = []
+            big = False
+            for p in preds:
+                pd = block_dnf(ev, res, body, p, lit, cap, memo, back, stop, vj, edge_lits, forced)
+                if pd is None:
+                    big = True
+                    break
+                gp = ev.guards(res, p)
+                edge = [g for g in ev.guards_edge(res, p, bb) if g not in gp]
+                plain = []
+                for cond, rel in edge:
+                    v = cond[1] if tag(cond) == "discr" else None
+                    if tag(v) == "vsum" and v in vj.values():
+                        jb = [k for k, s_ in vj.items() if s_ == v][0]
+                        ok_orig = set(o for nm, o in v[3][2] if (lambda d: d is not None and _rel_sat(rel, d))(ev._variant_discr(v[1], nm)))
+                        pd = [c for c in pd if any(("via", jb, o) in c for o in ok_orig)]
+                    else:
+                        plain.append((cond, rel))
+                if edge_lits is not None:
+                    conjs = []
+                    for conj in guard_dnf_pairs(plain):
+                        ls, inf = edge_lits(conj)
+                        if not inf:
+                            conjs.append(set(ls))
+                else:
+                    conjs = []
+                    for conj in guard_dnf(plain):
+                        ls = set()
+                        for f in conj:
+                            f2 = lit(f) if lit is not None else f
+                            if f2 is not None:
+                                ls.add(f2)
+                        conjs.append(ls)
+                for ls in conjs:
+                    if bb in vj:
+                        ls = set(ls) | {("via", bb, p)}
+                    out.extend(c | frozenset(ls) for c in pd)
+            if big:
+                memo[mk] = None
+            else:
+                out = dnf_simplify(out)
+                memo[mk] = out if len(out) <= cap else None
+        r = memo[mk]
+    if top and r is not None:
+        r = dnf_simplify([frozenset(l for l in c if l[0] != "via") for c in r])
+    return r
 
 
 def dnf_equiv(A, B):
